@@ -125,6 +125,7 @@ func runC09(w *world.World, c caseHistory, rec *kit.Recorder) error {
 			}
 			if containsPaused {
 				rec.Label("enforcement", "payload contains a paused action")
+				rec.Sample("probe with a paused action", map[string]any{"paused": fmt.Sprint(m.Model.PausedActions), "probe": t, "ack": string(o.Out.AckBytes)})
 				if o.Out.Success {
 					return fmt.Errorf("%s: the payload contains a paused action (%v) but the transfer succeeded", at, m.Model.PausedActions)
 				}
@@ -136,6 +137,9 @@ func runC09(w *world.World, c caseHistory, rec *kit.Recorder) error {
 				}
 			} else {
 				rec.Label("enforcement", "payload without a paused action")
+				if anyPause {
+					rec.Sample("probe without the paused action", map[string]any{"paused": fmt.Sprint(m.Model.PausedActions), "probe": t, "ack": string(o.Out.AckBytes)})
+				}
 				if anyPause {
 					rec.Label("enforcement", "payload without a paused action while one is paused")
 				}
@@ -245,6 +249,7 @@ func runC18(w *world.World, c caseC18, rec *kit.Recorder) error {
 			}
 			if updates > 0 && limit > 0 && (n == limit || n == limit+1) {
 				rec.Label("probe", "straddling a non-zero limit after an update")
+				rec.Sample(fmt.Sprintf("straddle/within=%v", n <= limit), map[string]any{"history": c.History, "limit": limit, "passthrough_len": n, "ack": string(out.AckBytes)})
 				rec.NonTrivial(fmt.Sprintf("%d|%d|%d", updates, limit, n))
 			}
 		}
